@@ -6,6 +6,7 @@ import ast
 from sa.engine.callgraph import calls_in, resolve_call
 from sa.engine.cfg import CFG
 from sa.engine.context import Ctx
+from sa.engine.guards import path_conditions
 from sa.engine.loader import anorm, AnalysisError, FuncInfo, dotted, norm, short, walk_own, is_noise
 from sa.engine.loops import LoopAnalysis
 from sa.engine.report import Finding, RuleReport
@@ -258,13 +259,45 @@ def rule_bytes(ctx: Ctx) -> RuleReport:
         body = [s for s in gb.node.body if not is_noise(s)]
         txt = [anorm(s, gb.node) for s in body]
         fld = "blob" if "blob" in c.fields else "data"
-        fresh = txt in ([f"v0 = io.BytesIO(self.{fld})", "v0.seek(0)", "return v0"], [f"return io.BytesIO(self.{fld})"])
-        fresh_guarded = txt == [f"if self.{fld} is None: return io.BytesIO()", f"return io.BytesIO(self.{fld})"]
-        rewound = txt == [f"if self.{fld} is None: return io.BytesIO()", f"self.{fld}.seek(0)", f"return self.{fld}"]
-        if fresh or fresh_guarded or rewound:
-            rep.ok({"get_bytes": c.name, "shape": "fresh BytesIO" if (fresh or fresh_guarded) else "stored stream rewound to 0"})
+        whole = {f"self.{fld}", f"self.{fld}.getvalue()", f"bytes(self.{fld})", f"self.{fld}.getbuffer()"}
+        local = {a.targets[0].id: a.value for a in walk_own(gb.node) if isinstance(a, ast.Assign) and len(a.targets) == 1 and isinstance(a.targets[0], ast.Name)}
+        rets = [r for r in walk_own(gb.node) if isinstance(r, ast.Return)]
+        shapes, bad = [], None
+        for r in rets:
+            v = r.value
+            via = None
+            if isinstance(v, ast.Name) and v.id in local:
+                via, v = v.id, local[v.id]
+            if isinstance(v, ast.Call) and (dotted(v.func) or "").split(".")[-1] == "BytesIO" and not v.keywords:
+                if not v.args:
+                    conds, _, _ = path_conditions(gb.node, r)
+                    if f"self.{fld} is None" in {str(x) for x in conds} or f"not self.{fld}" in {str(x) for x in conds}:
+                        shapes.append("empty stream when there is no payload")
+                    else:
+                        bad = f"`{short(r, 40)}` returns an empty stream although the image has bytes"
+                elif len(v.args) == 1 and norm(v.args[0]) in whole:
+                    # a fresh stream starts at 0; it must not be moved or consumed before it is returned
+                    moved = [x for x in walk_own(gb.node) if via and isinstance(x, ast.Call) and isinstance(x.func, ast.Attribute) and isinstance(x.func.value, ast.Name) and x.func.value.id == via
+                             and (x.func.attr in ("read", "readline", "write", "truncate", "close") or (x.func.attr == "seek" and not (len(x.args) == 1 and isinstance(x.args[0], ast.Constant) and x.args[0].value == 0)))]
+                    if moved:
+                        bad = f"the fresh stream is moved or consumed (`{short(moved[0], 40)}`) before it is returned"
+                    else:
+                        shapes.append(f"fresh BytesIO({norm(v.args[0])})")
+                else:
+                    bad = f"`{short(r, 60)}` wraps something other than the whole payload self.{fld}"
+            elif v is not None and norm(v) == f"self.{fld}":
+                blk = next((b for b in ([gb.node.body] + [x.body for x in ast.walk(gb.node) if hasattr(x, "body") and isinstance(getattr(x, "body"), list)] + [x.orelse for x in ast.walk(gb.node) if getattr(x, "orelse", None)]) if r in b), [])
+                before = [norm(x) for x in blk[:blk.index(r)]] if r in blk else []
+                if f"self.{fld}.seek(0)" in before:
+                    shapes.append("stored stream rewound to 0")
+                else:
+                    bad = f"`{short(r, 40)}` returns the stored stream where the last reader left it (no seek(0))"
+            else:
+                bad = f"`{short(r, 60)}` is not a stream over self.{fld}"
+        if rets and bad is None:
+            rep.ok({"get_bytes": c.name, "shape": sorted(set(shapes))})
         else:
-            rep.fail(Finding("C14-BYTES", DT, f"{c.name}.get_bytes", " ; ".join(txt)[:160], f"{c.name}.get_bytes does not return a stream positioned at 0 over the whole payload", line=gb.node.lineno))
+            rep.fail(Finding("C14-BYTES", DT, f"{c.name}.get_bytes", " ; ".join(txt)[:160], f"{c.name}.get_bytes does not return a stream positioned at 0 over the whole payload: {bad or 'no return'}", line=gb.node.lineno))
     return rep
 
 
